@@ -693,7 +693,10 @@ class CMakeTraceParser:
             if not j[0] in self.targets[target].properties:
                 self.targets[target].properties[j[0]] = []
 
-            self.targets[target].properties[j[0]] += j[1]
+            if 'BEFORE' in ignore and 'BEFORE' in args[1:]:
+                self.targets[target].properties[j[0]] = j[1] + self.targets[target].properties[j[0]]
+            else:
+                self.targets[target].properties[j[0]] += j[1]
 
     def _meson_ps_execute_delayed_calls(self, tline: CMakeTraceLine) -> None:
         for l in self.stored_commands:
